@@ -31,7 +31,7 @@ func (te *tableEngine) tableGameOpen() error {
 		TableStateStatus_TableGamePlaying,
 		TableStateStatus_TableGameSettled,
 	}
-	if funk.Contains(runningStatuses, te.table.State.Status) {
+	if funk.Contains(runningStatuses, te.table.State.Status) || len(te.table.State.GamePlayerIndexes) > 0 {
 		return nil
 	}
 
